@@ -166,14 +166,14 @@ def run(ctx: vlib.Ctx):
 
     # ---- 2+3. run the schemas in worker processes
     thorough = not ctx.quick()
-    n_grammar = ctx.budget(170, 2600)
-    n_ident = ctx.budget(50, 400)
+    n_grammar = ctx.budget(120, 2600)
+    n_ident = ctx.budget(40, 400)
     jobs = 4 if ctx.quick() else 12
     res_g, skip_g = run_family(ctx, "grammar", n_grammar, ctx.budget(24, 40), jobs, ctx.budget(10, 25), 8.0)
     res_i, skip_i = run_family(ctx, "identity", n_ident, ctx.budget(12, 20), jobs, ctx.budget(10, 20), 8.0)
-    res_l, skip_l = run_family(ctx, "latename", ctx.budget(60, 600), ctx.budget(12, 20), jobs, ctx.budget(10, 25), 8.0)
-    res_m, skip_m = run_family(ctx, "multimod", ctx.budget(60, 600), ctx.budget(10, 16), jobs, ctx.budget(10, 25), 8.0)
-    res_d, skip_d = run_family(ctx, "defaults", ctx.budget(40, 400), ctx.budget(10, 16), jobs, ctx.budget(10, 25), 8.0)
+    res_l, skip_l = run_family(ctx, "latename", ctx.budget(40, 600), ctx.budget(12, 20), jobs, ctx.budget(10, 25), 8.0)
+    res_m, skip_m = run_family(ctx, "multimod", ctx.budget(50, 600), ctx.budget(10, 16), jobs, ctx.budget(10, 25), 8.0)
+    res_d, skip_d = run_family(ctx, "defaults", ctx.budget(30, 400), ctx.budget(10, 16), jobs, ctx.budget(10, 25), 8.0)
     skip_i = skip_i + skip_l + skip_d + skip_m
     if skip_g or skip_i:
         ctx.notes.append(f"schemas skipped because a call did not return in time (library loops on some inputs; not a C17 matter): grammar {skip_g}, identity {skip_i}")
@@ -298,7 +298,7 @@ def coq_programs(ctx, programs, attr_cases, all_res):
         files.append((f"c17_closed_{ctx.seed}_{si // shard}", txt))
         meta.append((chunk, ok_idx, [(fam, idx) for fam, idx, reads, sets in attr_cases if (fam, idx) in keys], info))
     coq_programs._seen = set()
-    jobs = 4 if ctx.quick() else 12
+    jobs = 6 if ctx.quick() else 12
     res = coqc_many(files, timeout=900, jobs=jobs)
     # green shards: the kernel accepted `shard_closed`; for the others compile the diagnosis variant to learn which cases fail
     redo = [k for k, (ok, out) in enumerate(res) if not ok]
@@ -476,8 +476,8 @@ def clean_id_corr(ctx):
 
 
 def k42_corr(ctx):
-    """translated kernel K42 (clean_id as a character map) vs the real clean_id: every code point below 0x3000 alone and
-    after a letter (thorough: also in front of a digit), plus random strings"""
+    """translated kernel K42 (clean_id as a character map) vs the real clean_id: every code point below 0x3000 alone (thorough: also
+    after a letter and in front of a digit), plus random strings"""
     import random
     from mashumaro.core.meta.types.common import clean_id
     ctx.theorems("props/C17_cleanid.vo", ["C17_clean_id_identifier", "C17_clean_id_length", "C17_clean_id_kernel_refuted"], kernels=["K42"])
@@ -486,9 +486,9 @@ def k42_corr(ctx):
     rng = random.Random(f"c17-k42-{ctx.seed}")
     strs = []
     for cp in range(0x3000):
-        strs.append(chr(cp))
-        strs.append("a" + chr(cp))
+        strs.append(chr(cp))          # alone: decides both tables (digit: "_" + c, other word character: c, non-word: "_")
         if not ctx.quick():
+            strs.append("a" + chr(cp))
             strs.append(chr(cp) + "1")
     alphabet = "abzAZ09_.<>-[], '\"\\/:+*()!~\x7f\x01\u00b2\u00e9\u0660\u0966\u2160\u2028\u00aa\u0300\u2f00"
     for _ in range(ctx.budget(400, 4000)):
